@@ -112,9 +112,9 @@ def run(ctx):
     weak_n, weak_sample = 0, None
     runs = [
         ("snapstate", "overlord/snapstate", SNAPSTATE_FILES, "^TestVerifConflicts$",
-         {"VERIF_N": ctx.pick(120, 3000), "VERIF_LEN": ctx.pick(8, 10), "VERIF_PAIRS": "1"}),
+         {"VERIF_N": ctx.pick(80, 3000), "VERIF_LEN": ctx.pick(8, 10), "VERIF_PAIRS": ctx.pick("plain", "1")}),
         ("ifacestate", "overlord/ifacestate", IFACE_FILES, "^TestVerifConflictsIface$",
-         {"VERIF_N": ctx.pick(150, 3000)}),
+         {"VERIF_N": ctx.pick(100, 3000)}),
     ]
     for name, pkg, files, entry, env in runs:
         tb = goharness.overlay_test_build(ctx, pkg, files)
